@@ -69,6 +69,13 @@ def extobj(name, cls="?", inp=True, fit=None):
 def pyval(x):
     if isinstance(x, V):
         return x
+    if isinstance(x, (list, tuple)):
+        items = [pyval(i) for i in x]
+        kind = "list" if isinstance(x, list) else "tuple"
+        return V(kind, T(kind, *[i.term for i in items]), items=items, orig=frozenset([FRESH]), loc=fresh_id())
+    if isinstance(x, dict):
+        d = {k: pyval(v) for k, v in x.items()}
+        return V("dict", T("dict", *[T("kv", const(k), d[k].term) for k in sorted(d, key=repr)]), items=d, loc=fresh_id())
     return vconst(x)
 
 
